@@ -47,7 +47,7 @@ def floors(tier):
     f = {"groups": 300, "schedules": 5000, "schedules_exhaustive_groups": 100, "thread_runs": 100,
          "thread_validations": 5000, "thread_runs_20plus_switches": 50, "observed_switches": 2000,
          "distinct_interleaving_signatures": 50}
-    for k in ("refs", "remote", "regex", "format", "types", "same-schema-object", "verdicts", "dollar-schema", "decimal"):
+    for k in ("refs", "remote", "regex", "format", "types", "same-schema-object", "verdicts", "dollar-schema", "decimal", "handed-on-store"):
         f["collision:" + k] = 60
     return f
 
@@ -179,12 +179,57 @@ def group_plan(gseed):
     if rng.random() < 0.3:
         # several validators built from the very same schema OBJECT (no resolver passed): each still gets its own resolver
         kinds = {"refs", "same-schema-object"}
+    elif rng.random() < 0.15:
+        kinds = {"handed-on-store"}
     return kinds, n
 
 
-def make_one(gseed, d, k, shared=None):
+def handed_on_member(gseed, d, k, link):
+    """Group kind `handed-on-store`: member 0 builds its resolver from a plain dict store; every other member builds its
+    own resolver with store=<member 0's resolver>.store - the documents are handed on, the resolvers stay separate
+    (own scope stack, own caches, own handlers serving OTHER documents under the same URLs).  No root id: all members
+    have the same base URI, and the same reference strings mean different definitions."""
+    rng = random.Random(gseed * 131 + k)
+    cls = impl.CLS[d]
+    t, q = rng.sample(LEAVES, 2)
+    hdoc = {"properties": {"v": rng.choice(LEAVES)}, "definitions": {"q": q}}
+    S = {"definitions": {"t": t}, "properties": {"r1": {"$ref": "#/definitions/t"}, "r2": {"items": {"$ref": "#/definitions/t"}},
+                                                 "m1": {"$ref": R.HANDLER_DIR + "handed.json"},
+                                                 "m2": {"$ref": R.HANDLER_DIR + "handed.json#/definitions/q"},
+                                                 "s1": {"$ref": R.STORE_DIR + "common.json"}},
+         "additionalProperties": False}
+    if d != 3:
+        S["required"] = ["zz"]
+    vals = [1, "s", "x", [1, "x"], None, 20, {"v": 1}, "ab"]
+    inst = {"r1": rng.choice(vals), "r2": [rng.choice(vals), rng.choice(vals)], "m1": {"v": rng.choice(vals)}, "m2": rng.choice(vals),
+            "s1": rng.choice(vals), "extra": 0}
+    handlers = {"vf": (lambda url, hdoc=hdoc: hdoc)}
+    common = {R.STORE_DIR + "common.json": {"type": ["integer", "string"]}}
+
+    def build0():
+        m0 = handed_on_member(gseed, d, 0, {}) if k != 0 else None
+        if k == 0:
+            v = cls(S, resolver=RefResolver.from_schema(S, id_of=cls.ID_OF, store=dict(common), handlers=handlers))
+        else:
+            v = m0["build"]()
+        return v
+
+    def build():
+        if k == 0:
+            v = build0()
+            link["v0"] = v
+            return v
+        if "v0" not in link:
+            link["v0"] = build0()          # built, never run (the solo run of member k needs somebody's store to be handed)
+        return cls(S, resolver=RefResolver.from_schema(S, id_of=cls.ID_OF, store=link["v0"].resolver.store, handlers=handlers))
+    return {"schema": S, "instance": inst, "build": build, "draft": d}
+
+
+def make_one(gseed, d, k, shared=None, link=None):
     """Member k of group gseed, built WITHOUT building the others (each member has its own seed)."""
     kinds, n = group_plan(gseed)
+    if "handed-on-store" in kinds:
+        return handed_on_member(gseed, d, k, link if link is not None else {})
     if "same-schema-object" in kinds:
         m0 = make_member(random.Random(gseed * 31), d, 0, {"refs"})
         mk = make_member(random.Random(gseed * 31 + k), d, k, {"refs"})
@@ -200,8 +245,9 @@ def make_group(gseed, d):
     kinds, n = group_plan(gseed)
     members = []
     shared = None
+    link = {}
     for k in range(n):
-        m = make_one(gseed, d, k, shared=shared)
+        m = make_one(gseed, d, k, shared=shared, link=link)
         if "same-schema-object" in kinds:
             shared = m["schema"]
         members.append(m)
@@ -411,9 +457,13 @@ def thread_run(ctx, rng, members, kinds, rounds, solos, gseed=None):
     errors = []
     barrier = threading.Barrier(nthreads)
 
+    # (groups whose members hand a store on are built up front, in member order: what is handed on is the store as
+    #  it is at that moment, and it must be the not-yet-used one the solo runs saw)
+    prebuilt = [m["build"]() for m in assign] if "handed-on-store" in kinds else None
+
     def work(t):
         try:
-            v = assign[t]["build"]()
+            v = prebuilt[t] if prebuilt is not None else assign[t]["build"]()
             barrier.wait()
             for _ in range(rounds):
                 results[t].append(sorted(repr(fp(e)) for e in v.iter_errors(assign[t]["instance"])))
